@@ -60,6 +60,15 @@ def gen_case(rng, tier, idx):
     case = {"kind": kind, "order": rng.choice(["rr", "rsr", "srr", "rrs"])}
     if kind == "mux":
         case["layout"] = muxwork.gen_layout(rng, tier)
+        if rng.random() < 0.5:
+            # crowded layouts: many small registers of one-sided access, unaligned, so that shadow chunks are shared
+            # by several registers and the sharing limit actually shapes the hardware
+            lay = case["layout"]
+            lay.update(aw=rng.choice([4, 5, 6]), dw=rng.choice([4, 8]), al=0)
+            lay["regs"] = [{"width": rng.choice([1, lay["dw"], lay["dw"] + 1, 2 * lay["dw"], 3 * lay["dw"]]),
+                            "access": rng.choice(["w", "w", "w", "r", "rw"]),
+                            "place": rng.choice(["implicit", "unaligned", "unaligned"]),
+                            "addr_r": rng.random(), "extra": 0, "alignment": None} for _ in range(rng.randint(4, 9))]
     elif kind == "register":
         case["reg"] = c11mod.gen_case(rng, tier, rng.randrange(1000))
     return case
